@@ -400,3 +400,22 @@ PROPS["C12"]["technique"] += "; fixed probes with components of 2^29 / 2^30 char
 PROPS["C20"]["technique"] += "; shared inputs held in read-only pages"
 for _pid in ("C06", "C08", "C09", "C10"):
     PROPS[_pid]["technique"] += "; operands also taken from generated histories of library calls (stateful generation), judged against the same model via their recomposed texts"
+
+
+# ---- round 7 additions ------------------------------------------------------------------------------------------------------
+_ADD7 = {
+    "C01": " The literal within which an error position may move ends where the run of literal-capable characters ends (an unclosed literal does not reach to the end of the text). G_noise appends zone identifiers / prefix lengths to well-formed IPv6 addresses.",
+    "C02": " Texts outside the grammar are kept in half of the noise arm and must be refused (the statement's 'on success' presupposes membership); every accepted text is also tried with each character lifted beyond 255 (wchar_t). Vocabulary: references, hosts and user infos that other specifications / browsers treat specially (URL: prefix, 0x7f.0.0.1, trailing dots, host:port-like user info).",
+    "C03": " uriParseSingleUriEx takes part in the guard-page phase; the empty range at the start of every text is parsed against both guard pages.",
+    "C04": " Texts outside the grammar are kept in half of the noise arm and must be refused ('for every accepted input' presupposes membership).",
+    "C07": " An IPv4 host's text is part of what must read back (only IPv6 literals are re-spelled). Masks with bits beyond the documented six in one normalisation in twelve.",
+    "C08": " One text in 24 comes from about 90 'famous' references that other specifications, browsers or servers treat specially (text fragments, ';' parameters, file: drives, default ports, inet_aton hosts ...).",
+    "C12": " Before the sources are scribbled the recomposed text of the owned URI is written over one of the original strings.",
+    "C13": " Query steps dissect / compose / free generated query texts (counted as query_steps_with_items); masks with bits beyond the documented six.",
+    "C16": " Chunks include escapes of other dialects (%uXXXX, %x41, &#65;, percent-encoded and overlong UTF-8), all of which are malformed or plain bytes here.",
+    "C18": " UNC servers that look like bracketed literals, user info or host:port.",
+    "C19": " Percent-encoded UTF-8 in the texts; after a refused uriToString the whole buffer is part of the transcript.",
+    "C20": " The mask query also runs on the shared (usually relative) reference.",
+}
+for _pid, _txt in _ADD7.items():
+    PROPS[_pid]["rule"] += _txt
